@@ -2,7 +2,7 @@
 
 Used ONLY to steer case generation for C19: to know which operations are effective in the current
 situation, to drive traces to quiescence, to enumerate state-covering traces and to avoid or
-produce the three schedule families G1/G2/G3 (see coq/Model/ZkSet.v).  It is not an oracle: the
+produce the two schedule families G2/G3 (see coq/Model/ZkSet.v).  It is not an oracle: the
 monitor in props/c19.py judges the implementation from its observations alone, and the Coq model
 is evaluated independently on every case.
 """
@@ -39,7 +39,7 @@ class St(object):
     return (self.started, self.parent, tuple(self.kids), self.dw, self.cw, tuple(self.pend),
             self.dver is None, self.dver == self.pz, self.watching, tuple(sorted(self.nodes)),
             tuple(sorted(self.members)),
-            tuple((tuple(sorted(a)), tuple(sorted(b))) for a, b in self.queue),
+            tuple(None if it is None else (tuple(sorted(it[0])), tuple(sorted(it[1]))) for it in self.queue),
             None if self.wk is None else (self.wk[0], tuple(sorted(self.wk[1])), tuple(sorted(self.wk[2])),
                                           tuple(sorted(self.wk[3]))),
             tuple(sorted(self.ml)))
@@ -81,8 +81,8 @@ def _data_body(s, first):
     if not s.parent:
       s.watching = False
       s.nodes = []
-      s.members = []
       s.ml = set()
+      s.queue.append(None)          # the all-members-left item, handled by the worker
     elif not s.watching:
       s.watching = True
       s.cw += 1
@@ -105,7 +105,8 @@ def _cont(s, todo, done, rem):
 
 def _drain(s):
   while s.queue:
-    new, rem = s.queue.pop(0)
+    it = s.queue.pop(0)
+    new, rem = it if it is not None else ([], list(s.members))
     s.wnew = [n for n in new if _flt(s, n)]
     if _cont(s, [n for n in new if _flt(s, n)], [], rem):
       return
@@ -118,18 +119,18 @@ def expected(s):
     cur, todo, done, rem = s.wk
     bs.append(([cur] + list(todo) + list(done), rem))
   bs += s.queue
-  for new, rem in bs:
-    x = (x | set(new)) - set(rem)
+  for it in bs:
+    if it is None:
+      x = set()
+    else:
+      x = (x | set(it[0])) - set(it[1])
   return x
 
 
 def patterns(s, op):
-  """Which of the schedule families the operation `op` would enter from state s (set of 'g1','g2','g3')."""
+  """Which of the schedule families the operation `op` would enter from state s (set of 'g2','g3')."""
   k = op[0]
   out = set()
-  if k == 'deliver' and s.pend and s.pend[0] == 'D' and not s.parent and s.dver is not None:
-    if s.queue or s.wk is not None:
-      out.add('g1')
   if k == 'mk' and s.parent and op[1] not in s.kids and op[1] in s.nodes and (op[1] not in expected(s) or op[1] in s.ml):
     out.add('g2')
   if ((k == 'mkp' and not s.parent) or (k == 'rmp' and s.parent)) and 'D' in s.pend:
